@@ -74,7 +74,7 @@ func DefaultCfg() ProgCfg {
 }
 
 var optAlphabet = []string{"a", "b", "d", "e", "f", "g"}
-var optAlphabetMB = []string{"a", "b", "d", "e", "f", "g", "é", "ß", "日"}
+var optAlphabetMB = []string{"a", "b", "d", "e", "f", "g", "é", "ß", "日", "a", "b", "d", "e", "f", "g", "é", "ß", "日", "\xe9", "\xff"} // incl. bytes that are not valid UTF-8 (Latin-1 names)
 var stems = []string{"v", "ve", "ver", "verb", "verbose", "version", "f", "fo", "foo", "foobar", "d", "de", "deb", "debug", "dry", "a", "al", "all", "b", "ba", "bar", "baz", "g", "go", "é", "éa", "日本"}
 
 type nameGen struct {
@@ -243,6 +243,9 @@ func GenProg(r *Rng, cfg ProgCfg) *Prog {
 				o.Required = true
 				if r.Bool() {
 					o.ReqMsg = fmt.Sprintf("custom-msg-%d!", o.ID)
+					if r.Chance(1, 3) {
+						o.ReqMsg = fmt.Sprintf("need 100%% of %%s --opt%d (50%%)", o.ID)
+					}
 				}
 			}
 			if cfg.SetCalled > 0 && r.Intn(100) < cfg.SetCalled {
